@@ -78,9 +78,10 @@ type c01Scan struct {
 	ob       *c02Obs
 	ft       *c01Fmt
 	crValue  bool
-	sameLen  int         // max over keys: changes of a file value to another value of the same length between results
-	cfgs     [][2]string // (key, value) of every configuration entry seen on a result
-	units    []string    // every unit / original unit seen
+	crRes    []*benchfmt.Result // copies of the results carrying a file value that ends in CR
+	sameLen  int                // max over keys: changes of a file value to another value of the same length between results
+	cfgs     [][2]string        // (key, value) of every configuration entry seen on a result
+	units    []string           // every unit / original unit seen
 	fileErr  error
 	nresults int
 }
@@ -119,6 +120,7 @@ func c01ScanFiles(paths []string, stdin *os.File) (*c01Scan, error) {
 		}
 		for _, c := range res.Config {
 			if c.File && len(c.Value) > 0 && c.Value[len(c.Value)-1] == '\r' {
+				sc.crRes = append(sc.crRes, res.Clone())
 				sc.crValue = true
 			}
 			sc.cfgs = append(sc.cfgs, [2]string{c.Key, string(c.Value)})
@@ -179,10 +181,7 @@ func c01Bin(o *hx.Out, r *hx.Rng, exe, dir string, names, contents, paths []stri
 		o.Count("bin:skipped-io-error")
 		return nil
 	}
-	if sc.crValue {
-		tags = append(tags, "C01_value_ends_with_CR")
-		o.Count("class:file-value-ends-with-CR")
-	}
+	baseTags := tags
 	if sc.sameLen >= 3 {
 		o.Count("class:bin:file-value-changes-to-same-length>=3")
 	}
@@ -203,9 +202,19 @@ func c01Bin(o *hx.Out, r *hx.Rng, exe, dir string, names, contents, paths []stri
 	}
 	qs = append(qs, uq)
 	for _, q := range qs {
-		if _, e := benchproc.NewFilter(q.String()); e != nil {
+		flt, e := benchproc.NewFilter(q.String())
+		if e != nil {
 			o.Count("bin:query-unparsable")
 			continue
+		}
+		// known finding C01_value_ends_with_CR: tagged iff a result that the query keeps carries such a value
+		tags := append([]string{}, baseTags...)
+		for _, cr := range sc.crRes {
+			if ok, _ := flt.Apply(cr.Clone()); ok {
+				tags = append(tags, "C01_value_ends_with_CR")
+				o.Count("class:file-value-ends-with-CR")
+				break
+			}
 		}
 		args := []string{q.String()}
 		if !stdin {
